@@ -230,6 +230,21 @@ def _json_nested(m, out):
 # ---------------------------------------------------------------------------------------------
 
 
+GROUPED_ATTRS = {"name", "records", "descriptors", "flat_fields", "fieldname_to_record"}
+
+
+def _grouped_attr_collision(m):
+    if m.kind != "grp":
+        return False
+    for x in m.p["recs"]:
+        if x.kind == "grp":
+            if _grouped_attr_collision(x):
+                return True
+        elif any(n in GROUPED_ATTRS for _, n in x.p["desc"][1]):
+            return True
+    return False
+
+
 class KeepBytes(io.BytesIO):
     def close(self):
         pass
@@ -251,6 +266,11 @@ def run_history(case, ctx):
         specs = [(w, fixed_pool(i, n)) for n, (w, i) in enumerate(hist)]
     else:
         specs = [(w, m) for w, m in hist]
+    if kind == "json" and any(_grouped_attr_collision(m) for _, m in specs):
+        # GroupedRecord's own attributes (name, records, ...) shadow member fields of the same name when a
+        # grouped record is flattened for JSON; that is tracked under C15 (known finding), not a descriptor matter
+        ctx.cls("skipped:grouped-attribute-collision")
+        return
     built = impl(lambda: [gen.build_any_record(m) for _, m in specs])
     if not built.ok:
         ctx.cls("discarded:constructor-raised:" + built.type)
